@@ -70,7 +70,8 @@ def main():
     exc = None
     try:
         from zope.testrunner import run_internal
-        failed = run_internal([], [os.path.join(case["dir"], "ztr_run.py")] + case["args"])
+        failed = run_internal([], [os.path.join(case["dir"], "ztr_run.py")] + case["args"],
+                              **({"warnings": case["warnings"]} if case.get("warnings") else {}))
     except BaseException as e:  # noqa: BLE001
         exc = type(e).__name__
         failed = None
